@@ -24,6 +24,9 @@ VALUES = {
     ("menu", "-hv"): (["a, b"], ["a", "b"]),
     ("chk2plt", "-p"): (["ref_plt"], "ref_plt"), ("chk2plt", "-s"): (["H2", "O2"], ["H2", "O2"]), ("chk2plt", "-o"): (["res/p"], "res/p"),
 }
+# the same options typed with the value ZERO (a legal level limit, normal, position ...): what a truthiness test would drop
+ZEROS = {k: ((["0"], 0) if isinstance(v[1], int) and not isinstance(v[1], bool) else (["0.0"], 0.0))
+         for k, v in VALUES.items() if isinstance(v[1], (int, float)) and not isinstance(v[1], bool)}
 # how the input is named on each command line, and the names of the API's positional parameters in order
 INPUT = {"colander": ["in_plt"], "taste": ["in_plt"], "combine": ["-p1", "in_plt", "-p2", "in_plt2"], "chef": ["in_plt"],
          "mandoline": ["in_plt"], "pestle": ["in_plt"], "menu": ["in_plt"], "chk2plt": ["-c", "in_chk"]}
@@ -56,8 +59,9 @@ class Recorder(object):
         return True
 
 
-def run_cli(tool, flags):
+def run_cli(tool, flags, values=None):
     """Returns ("call", merged keywords) | ("refused", text)."""
+    values = values or VALUES
     mod = importlib.import_module(MODULE[tool])
     log = []
     names = {"colander": ["Colander"], "taste": ["Taster"], "combine": ["combine", "PlotfileCooker"], "chef": ["Chef"],
@@ -67,7 +71,7 @@ def run_cli(tool, flags):
     argv = [tool] + INPUT[tool]
     for f in sorted(flags):
         argv.append(f)
-        argv += VALUES.get((tool, f), ([], None))[0]
+        argv += values.get((tool, f), ([], None))[0]
     old = sys.argv
     try:
         for n in names:
@@ -95,7 +99,8 @@ def run_cli(tool, flags):
     return ("call", kw), argv
 
 
-def concrete(tool, sym):
+def concrete(tool, sym, values=None):
+    values = values or VALUES
     if sym == "None":
         return None
     if sym == "True":
@@ -103,7 +108,7 @@ def concrete(tool, sym):
     if sym == "False":
         return False
     if isinstance(sym, str) and sym.startswith("V:"):
-        return VALUES[(tool, sym[2:])][1]
+        return values[(tool, sym[2:])][1]
     return sym
 
 
@@ -116,6 +121,25 @@ def phase(chk, tool):
     scs = [e for e in r.emitted if isinstance(e, dict) and e.get("prop") == "Cli"]
     if not scs:
         raise core.MachineryError("TLC emitted no command-line scenario for %s" % tool)
+    # the inputs named on the command lines exist (a main() may look at its input before it calls the tool)
+    import os
+    import random
+    from . import gamma
+    work = chk.tmp()
+    os.makedirs(work)
+    rng = random.Random(5)
+    cfg_ = gamma.Config.draw(rng, ndims=3, payload="tame")
+    for name, fields in (("in_plt", ["a", "b", "temp"]), ("in_plt2", ["c", "d"])):
+        gamma.write_plotfile(os.path.join(work, name), gamma.make_ap(name, fields, [[1, 2], [1]], None, ndims=3, time=cfg_.time), cfg_)
+    old_cwd = os.getcwd()
+    os.chdir(work)
+    try:
+        return _phase(chk, tool, scs)
+    finally:
+        os.chdir(old_cwd)
+
+
+def _phase(chk, tool, scs):
     cap = 300 if chk.tier == "quick" else 5000
     if len(scs) > cap:
         scs.sort(key=core.jdump)
@@ -125,30 +149,36 @@ def phase(chk, tool):
         keep = [s for s in scs if len(s["flags"]) in (0, 1, nflags)]
         scs = keep + [s for s in scs if s not in keep][:cap - len(keep)]
     nv = 0
+    zero_tab = dict(VALUES)
+    zero_tab.update(ZEROS)
     for sc in scs:
         flags = list(sc["flags"])
-        (kind, got), argv = run_cli(tool, flags)
-        sig = "cli/%s/%d-options%s" % (tool, len(flags), "/refusal" if sc["refuses"] else "")
-        chk.executed(sig + "/" + ",".join(sorted(flags)), True)
-        chk.traces += 1
-        v = None
-        if sc["refuses"]:
-            if kind != "refused":
-                v = "the command line %r went on although it lacks an option it documents as required" % (argv,)
-        elif kind == "refused":
-            v = "the command line %r is refused (%s); the options given stand for a call of the tool" % (argv, got)
-        else:
-            for p, sym in sorted(sc["expect"].items()):
-                want = concrete(tool, sym)
-                have = got.get(p, "<not passed>")
-                if have == "<not passed>" and want is None:
-                    continue
-                if have != want or type(have) is not type(want):
-                    v = "with %r the tool receives %s=%r; the options given stand for %s=%r" % (argv, p, have, p, want)
-                    break
-        if v:
-            nv += 1
-            chk.violation(sig, v, {"cli": True, "tool": tool, "flags": flags}, klass="cli/%s/%s" % (tool, ",".join(sorted(flags))))
+        variants = [("", VALUES)]
+        if any((tool, f) in ZEROS for f in flags):
+            variants.append(("/zero-values", zero_tab))
+        for vname, values in variants:
+            (kind, got), argv = run_cli(tool, flags, values)
+            sig = "cli/%s/%d-options%s%s" % (tool, len(flags), "/refusal" if sc["refuses"] else "", vname)
+            chk.executed(sig + "/" + ",".join(sorted(flags)), True)
+            chk.traces += 1
+            v = None
+            if sc["refuses"]:
+                if kind != "refused":
+                    v = "the command line %r went on although it lacks an option it documents as required" % (argv,)
+            elif kind == "refused":
+                v = "the command line %r is refused (%s); the options given stand for a call of the tool" % (argv, got)
+            else:
+                for p, sym in sorted(sc["expect"].items()):
+                    want = concrete(tool, sym, values)
+                    have = got.get(p, "<not passed>")
+                    if have == "<not passed>" and want is None:
+                        continue
+                    if have != want or type(have) is not type(want):
+                        v = "with %r the tool receives %s=%r; the options given stand for %s=%r" % (argv, p, have, p, want)
+                        break
+            if v:
+                nv += 1
+                chk.violation(sig, v, {"cli": True, "tool": tool, "flags": flags, "zero": bool(vname)}, klass="cli/%s/%s%s" % (tool, ",".join(sorted(flags)), vname))
     chk.extra.setdefault("cli", []).append({"tool": tool, "option_sets": len(scs), "violations": nv})
     return nv
 
@@ -159,9 +189,12 @@ def replay(chk, scenario):
                            "INVARIANTS": ["MCRefines", "Emit"]}, workers=4, timeout=900)
     for sc in r.emitted:
         if isinstance(sc, dict) and sc.get("prop") == "Cli" and sorted(sc["flags"]) == sorted(flags):
-            (kind, got), argv = run_cli(tool, flags)
+            values = dict(VALUES)
+            if scenario.get("zero"):
+                values.update(ZEROS)
+            (kind, got), argv = run_cli(tool, flags, values)
             chk.executed("cli/replay")
             bad = (sc["refuses"] and kind != "refused") or (not sc["refuses"] and (kind == "refused" or any(
-                got.get(p, None if concrete(tool, s) is None else "<not passed>") != concrete(tool, s) for p, s in sc["expect"].items())))
+                got.get(p, None if concrete(tool, s, values) is None else "<not passed>") != concrete(tool, s, values) for p, s in sc["expect"].items())))
             if bad:
                 chk.violation("cli/%s" % tool, "command line %r: %s %r, expected %r" % (argv, kind, got, sc["expect"]), scenario)
